@@ -106,6 +106,11 @@ func (v *Verifier) VerifyFunc(fc *FuncContract) {
 	rep := &FuncReport{Key: fc.Key}
 	v.Reports = append(v.Reports, rep)
 	fn := v.Prog.Funcs[fc.Key]
+	if fc.Options["trusted"] != "" && fn != nil {
+		rep.Notes = append(rep.Notes, "TRUSTED (body not verified): "+fc.Options["trusted"])
+		v.UsedEnv["contract of "+fc.Key+" ASSUMED, body not verified: "+fc.Options["trusted"]] = true
+		return
+	}
 	if fn == nil {
 		// the function under contract no longer exists: every clause fails
 		for _, c := range fc.Clauses {
